@@ -64,6 +64,31 @@ pub(crate) mod verif_common {
     pub fn c_cur(a: &AtomicCounter) -> usize { let r: usize = kani::any(); push(E { loc: a as *const AtomicCounter as usize, kind: 2, arg: 0, ret: r, ord: 0 }); r }
     pub fn c_store(a: &AtomicCounter, v: usize) { push(E { loc: a as *const AtomicCounter as usize, kind: 3, arg: v, ret: 0, ord: 4 }); }
 
+    // ---- rely/guarantee counter model (functions that perform several atomic steps: for_each, fold) ----
+    // ghost true value `g`; before each own operation the environment (other threads) takes arbitrarily many steps allowed by
+    // the rely "others only fetch_add(k >= 0)" (= the guarantee every pull is proved to satisfy), then the operation acts atomically.
+    pub const RN: usize = 5;
+    pub struct Rg { pub g: usize, pub n: usize, pub b: [usize; RN], pub k: [usize; RN] }
+    pub struct RgCell(pub UnsafeCell<Rg>);
+    unsafe impl Sync for RgCell {}
+    pub static RG: RgCell = RgCell(UnsafeCell::new(Rg { g: 0, n: 0, b: [0; RN], k: [0; RN] }));
+    pub fn rg() -> &'static mut Rg { unsafe { &mut *RG.0.get() } }
+    pub fn rg_faa(_a: &AtomicCounter, val: usize) -> usize {
+        let s = rg();
+        let env: usize = kani::any();
+        kani::assume(env <= usize::MAX - s.g && val <= usize::MAX - s.g - env);   // no-wrap regime
+        s.g += env;
+        let r = s.g;
+        s.g += val;
+        assert!(s.n < RN, "reservation log overflow (harness bound)");
+        s.b[s.n] = r; s.k[s.n] = val; s.n += 1;
+        r
+    }
+    pub fn rg_inc(a: &AtomicCounter) -> usize { rg_faa(a, 1) }
+    // was position p reserved by one of this call's own pulls?
+    pub fn rg_own(p: usize) -> bool { let s = rg(); let mut i = 0; let mut own = false; while i < RN { if i < s.n && s.b[i] <= p && p - s.b[i] < s.k[i] { own = true; } i += 1; } own }
+    pub fn rg_last_ret() -> usize { let s = rg(); if s.n == 0 { 0 } else { s.b[s.n - 1] } }
+
     // ---- swap on the crate's counter (known-size consuming kinds: skip_to_end) ----
     pub fn c_swap(a: &AtomicCounter, v: usize) -> usize { let r: usize = kani::any(); push(E { loc: a as *const AtomicCounter as usize, kind: 3, arg: v, ret: r, ord: 4 }); r }
 
